@@ -23,6 +23,15 @@ META = {
         "Four fix: commits repaired the decoders; their witnesses are replayed on every run.")),
 }
 
+META['C09'] = dict(
+  text=("Kernel-checked invariant Cache.Inv (used size = sum of stored lengths mod 2^32 and exactly below a configured capacity; total <= capacity; each key in one scope; every live key sized; "
+        "no stored value above its limit) proved preserved by every operation and lifted by induction to EVERY operation sequence from NewCache (reachable_inv); plus limit_enforced_add/update, "
+        "rejected_unchanged_* (the operations return the cache Go leaves behind, Update's blank-and-restore rollback is modelled and proved to restore exactly), pop_releases_frame_bytes, get_after_add. "
+        "Tie: 3000 (quick) / 60000 (thorough) random op sequences over 4 keys, value lengths 0..70000 around the 16-bit boundary, limits and capacities incl. 0, every exported field compared after every op, "
+        "plus an independent Go reference oracle."),
+  note=("Trusted: Lean kernel + standard axioms; model (sampled agreement); harness. Hypothesis size(v)+capacity < 2^32 is explicit. Two fix: commits (uint16 truncation of the limit test, empty Update value) "
+        "were needed for the property to hold; their witnesses are replayed every run. Stale Sizes entries after Reset are allowed by the statement (only live symbols are constrained)."))
+
 NOT_APPLICABLE = {
  'C01': 'not claimed yet: model and check under construction in this round (planned: Vise/Render.lean, Props/C01.lean)',
  'C02': 'not claimed yet: under construction', 'C03': 'not claimed yet: under construction', 'C04': 'not claimed yet: under construction',
